@@ -24,7 +24,7 @@ void h_count(void)
   { Config a; cfg = a; protocol__Manifest b; mf = b; vec_EvaluatedCandidate c; ev = c; }
   sc.config_ = &cfg;       /* the coordinator holds a reference to the node's configuration */
   uint64_t cand = ev.n, shards = mf.shards.n, target = cfg.swarm_target_replicas, minp = cfg.swarm_min_providers, thr = mf.threshold;
-  uint64_t got = SwarmCoordinator__compute_plan__slice_provider_count(&sc, &mf, &ev);
+  uint64_t got = SwarmCoordinator__compute_plan__slice_provider_count(&sc, &ev, &mf);
   uint64_t want = mn(mn(cand, shards), mx(target, mn(mn(mx(minp, thr), cand), shards)));
   __CPROVER_assert(got == want, "providers = min(candidates, shards, max(target replicas, min(max(minimum providers, threshold), candidates, shards)))");
   __CPROVER_assert(got <= cand && got <= shards, "never more providers than candidates or shards");
@@ -40,7 +40,7 @@ void h_distribute(void)
   for (int k = 0; k < P; ++k) { asg[k].shard_indices.p = 0; asg[k].shard_indices.n = 0; asg[k].shard_indices.cap = 0; }   /* as created by the assignment loop */
   plan.assignments.p = asg; plan.assignments.n = in_p; plan.assignments.cap = P;
   uint64_t total = in_t, count = in_p;
-  SwarmCoordinator__compute_plan__slice_distribute(&total, &count, &mf, &plan);
+  SwarmCoordinator__compute_plan__slice_distribute(&mf, &plan, &count, &total);
   uint64_t sum = 0, lo = (uint64_t)-1, hi = 0;
   for (uint64_t k = 0; k < P; ++k) if (k < in_p) { uint64_t c = asg[k].shard_indices.n; sum += c; if (c < lo) lo = c; if (c > hi) hi = c; }
   __CPROVER_assert(sum == in_t, "the providers' shard lists together hold as many entries as the manifest has shards");
